@@ -402,6 +402,73 @@ def record_pass(prop, gname, groups, tier, seed, scale, work, tdir):
     return summary
 
 
+N_MINUS = {29: -2, 30: -1}          # toy scalar constants n-2, n-1 (n = 31) -> the real n-2, n-1
+GROUP_ORDER = 0xFFFFFFFFFFFFFFFFFFFFFFFFFFFFFFFEBAAEDCE6AF48A03BBFD25E8CD0364141
+RE_LAST = re.compile(r'last = <<"(\w+)", (\d+), (\d+)>>')
+
+
+def tlc_scenarios(specdir, work, seed, num, depth):
+    """Use 2 of the specification (DESIGN 2.3): TLC simulates the toy instance of the abstract machine
+    (MC_History) and every behaviour it produces becomes a scenario that is executed on the real library.
+    Returns a list of scenarios, each a list of event dicts (calls only)."""
+    cfg = open(os.path.join(specdir, "MC_History.cfg")).read()
+    cfg = re.sub(r"MaxCalls = \d+", "MaxCalls = %d" % depth, cfg)
+    cfg = "\n".join(l for l in cfg.splitlines() if not l.startswith(("VIEW", "PROPERTY", "INVARIANT"))) + "\n"
+    open(os.path.join(specdir, "MC_History_sim.cfg"), "w").write(cfg)
+    out = os.path.join(work, "sim")
+    os.makedirs(out, exist_ok=True)
+    md = tempfile.mkdtemp(prefix="mdsim_", dir=work)
+    cmd = ["java", "-Xss1g", "-Xmx3g", "-cp", TLC_CP, "tlc2.TLC", "-workers", "1", "-simulate", "file=%s/b,num=%d" % (out, num),
+           "-depth", str(depth + 1), "-seed", str(seed), "-metadir", md, "-config", "MC_History_sim.cfg", "MC_History.tla"]
+    r = subprocess.run(cmd, cwd=specdir, capture_output=True, text=True, timeout=600)
+    shutil.rmtree(md, ignore_errors=True)
+    scen = []
+    for f in sorted(glob.glob(os.path.join(out, "b_*"))):
+        evs = []
+        for name, x, y in RE_LAST.findall(open(f).read()):
+            x, y = int(x), int(y)
+            if name == "init":
+                continue
+            if name == "SSetC":
+                v = y if y not in N_MINUS else GROUP_ORDER + N_MINUS[y]
+                evs.append({"op": "SSetInt", "r": x, "v": list(v.to_bytes(32, "big"))})
+            elif name == "EMul":
+                evs.append({"op": "EMul", "r": x, "s": y})
+            elif name in ("EIdentity", "EBase", "EDouble", "ENegate"):
+                evs.append({"op": name, "r": x})
+            else:
+                evs.append({"op": name, "r": x, "a": y})
+        if evs:
+            scen.append(evs)
+    if not scen:
+        raise Inconclusive("TLC -simulate produced no behaviour: " + (r.stdout + r.stderr)[-1500:])
+    return scen
+
+
+def run_scenarios(prop, scen, work, tag):
+    """Execute TLC-generated scenarios on the real code (harness -scenario), one trace file per shard."""
+    binary, accessor = build_harness(work)
+    files, events, hist = [], 0, 0
+    shards = [scen[i::NCPU] for i in range(NCPU) if scen[i::NCPU]]
+    for k, part in enumerate(shards):
+        sc = os.path.join(work, "%s_scenario_%02d.ndjson" % (tag, k))
+        with open(sc, "w") as fh:
+            for evs in part:
+                fh.write(json.dumps({"op": "Reset"}) + "\n")
+                for e in evs:
+                    fh.write(json.dumps(e) + "\n")
+        tdir = os.path.join(work, "%s_traces_%02d" % (tag, k))
+        os.makedirs(tdir)
+        r = subprocess.run([binary, "-prop", prop, "-out", tdir, "-scenario", sc], capture_output=True, text=True, env=GOENV, timeout=1200)
+        if r.returncode != 0 or not r.stdout.strip():
+            raise Inconclusive("harness failed on a TLC-generated scenario: " + (r.stderr or r.stdout)[-2000:])
+        sm = json.loads(r.stdout.strip().splitlines()[-1])
+        files += sm["files"]
+        events += sm["events"]
+        hist += sm["histories"]
+    return {"events": events, "histories": hist, "accessor": accessor, "files": files, "classes": {"tlc_generated_histories": hist}}
+
+
 def check_trace_property(prop, tier, seed, work, replay=None, scale=1.0):
     t0 = time.time()
     specdir = copy_spec(work)
@@ -447,6 +514,14 @@ def check_trace_property(prop, tier, seed, work, replay=None, scale=1.0):
             jobs += [(f, tmod, tcfg, reasons, gname) for f in summary["files"]]
             log("  harness[%s]: %d events in %d histories, %d trace files, accessor=%s (%.1fs)"
                 % (gname, summary["events"], summary["histories"], len(summary["files"]), summary["accessor"], time.time() - t0))
+
+    if prop == "C10" and not replay:
+        # behaviours of the toy abstract machine, generated by TLC, executed on the real library
+        scen = tlc_scenarios(specdir, work, seed, int((400 if tier == "thorough" else 48) * scale) or 1, 30)
+        summary = run_scenarios(prop, scen, work, "sim")
+        summaries.append(summary)
+        jobs += [(f, SECP[0], SECP[1], None, "C10") for f in summary["files"]]
+        log("  TLC-generated: %d behaviours of MC_History (-simulate, depth 30) executed on the real code: %d events" % (len(scen), summary["events"]))
 
     timeout = 3000 if tier == "thorough" else 900
     with concurrent.futures.ThreadPoolExecutor(max_workers=NCPU) as ex:
